@@ -541,7 +541,8 @@ fn run_leaf_inner(
         if let Outcome::Err(ErrKind::Io(e)) = &rec.got {
             return fail("io-error", format!("step {} {}: unexpected I/O error {}", i, op.short(), e));
         }
-        if rec.got != rec.expected && !(mon.c13 && rec.expected.is_rejected_or_noop()) {
+        let c16_under_evicted = mon.c16 && matches!((&rec.got, &rec.expected), (Outcome::Truncated(g), Outcome::Truncated(e)) if g < e);
+        if rec.got != rec.expected && !(mon.c13 && rec.expected.is_rejected_or_noop()) && !c16_under_evicted {
             if mon.conformance {
                 return fail(
                     "outcome-mismatch",
@@ -739,12 +740,27 @@ fn run_leaf_inner(
                 }
             }
         }
-        if rec.got != rec.expected {
+        // A truncation that was accepted but evicted fewer records than it covers: the mismatch is
+        // C05's question, but C16 still asks whether the memory of what the truncation covers was
+        // released (the state before the call conformed, so the model says what that is).
+        let under_evicted = matches!((&rec.got, &rec.expected), (Outcome::Truncated(g), Outcome::Truncated(e)) if g < e);
+        if rec.got != rec.expected && !(mon.c16 && under_evicted) {
             // (C13 run: the spec'd no-op was checked for traces above; the mismatch itself is
             // C05's question)
             return fail("diverged", String::new());
         }
         // ---- C16: memory accounting
+        if mon.c16 && under_evicted {
+            let ru = run.subject.log().resource_usage();
+            if let (Outcome::Truncated(k), Some(mb), Some(ub)) = (&rec.expected, &model_before, used_before) {
+                let evicted = mb.retained_payload_bytes() - run.model.retained_payload_bytes();
+                stats.count("truncations_evicting", 1);
+                if ub < ru.memory_used_bytes || ub - ru.memory_used_bytes < evicted {
+                    return fail("mem-not-released", format!("step {} {}: the truncation covers {} records ({} payload bytes; the call reported {:?}) but memory_used_bytes went {} -> {}", i, op.short(), k, evicted, rec.got, ub, ru.memory_used_bytes));
+                }
+            }
+            return fail("diverged", String::new());
+        }
         if mon.c16 {
             let ru = run.subject.log().resource_usage();
             let p = run.model.retained_payload_bytes();
